@@ -315,8 +315,13 @@ impl LogState {
                     line = line[i..].to_string();
                 }
             }
-            match Meta::parse(line.trim_end_matches('\n')) {
-                Ok(g) => {
+            // A "done" record without an exit status is not one of ours (a
+            // script printed something that looks like a record): plain output.
+            let meta = Meta::parse(line.trim_end_matches('\n'))
+                .ok()
+                .filter(|g| g.kind() != "done" || g.done_text().is_some());
+            match meta {
+                Some(g) => {
                     let relname = rel(&topdir, mydir, g.text())?
                         .into_os_string()
                         .into_string()
@@ -402,7 +407,7 @@ impl LogState {
                         }
                     }
                 }
-                Err(_) => {
+                None => {
                     if auto_bool_arg(&matches, "details").unwrap_or(true) {
                         if interrupted != 0 {
                             let d = logs::reduce_depth();
